@@ -159,13 +159,14 @@ PROPS = {
     ),
     "C03": dict(
         level="proof",
-        modules=["Exmex.Props.C03", "Exmex.Props.C03ToDeep", "Exmex.Props.C02", "Exmex.Props.C02Deep", "Exmex.Props.C03Parse", "Exmex.Props.C03Any", "Exmex.Proofs.AnyTextCex"],
+        modules=["Exmex.Props.C03", "Exmex.Props.C03ToDeep", "Exmex.Props.C02", "Exmex.Props.C02Deep", "Exmex.Props.C03Parse", "Exmex.Props.C03Any", "Exmex.Props.C03Conv", "Exmex.Proofs.AnyTextCex"],
         theorems=["Exmex.C03.fromDeep_sound", "Exmex.C03.toDeep_sound", "Exmex.C02.deep_compile_sound",
                   "Exmex.C03.deep_parse_eval_eq_denote", "Exmex.C03.flat_deep_parse_agree",
                   "Exmex.C03.flat_deep_agree_any", "Exmex.C03.flatWo_deep_agree_any", "Exmex.C03.flat_deep_agree_any'", "Exmex.C03.accepted_chain",
-                  "Exmex.C03.flat_deep_agree_any_unrestricted_false", "Exmex.AnyTextCex.differ₁"],
+                  "Exmex.C03.flat_deep_agree_any_unrestricted_false", "Exmex.AnyTextCex.differ₁",
+                  "Exmex.C03.flat_conversions_any", "Exmex.C03.deep_conversions_any"],
         level_text=("kernel-checked: flat_deep_parse_agree (renderings of well-formed expressions), fromDeep_sound / toDeep_sound (conversions in both directions, any number "
-                    "of times), deep_parse_eval_eq_denote; for ARBITRARY strings: flat_deep_agree_any - every text accepted by both parsers in which no operand directly "
+                    "of times), deep_parse_eval_eq_denote; flat_conversions_any / deep_conversions_any: from EVERY accepted text (also sloppy ones) converting to the other form and back keeps variables and value; for ARBITRARY strings: flat_deep_agree_any - every text accepted by both parsers in which no operand directly "
                     "follows an operand (equivalently, for flat-accepted texts: no group starts with a binary-only operator, flat_deep_agree_any') is the token stream of a "
                     "well-formed expression (accepted_chain), hence both forms list the same variables and agree at every assignment. Without that condition the claim is "
                     "FALSE - flat_deep_agree_any_unrestricted_false, differ_1: `*(1+2)(3)` is 5 in the flat and 9 in the deep form - a genuine defect of the library "
